@@ -10,7 +10,7 @@ import tempfile
 
 from harness import detsched, loader, seam as seam_mod
 
-UNIT = 0.25  # virtual seconds per model time unit; InotifyBuffer.delay = 0.5 = 2 units
+UNIT = None  # virtual seconds per model time unit = InotifyBuffer.delay / 2, read from the class at run time
 
 
 def pairing_program(params):
@@ -23,6 +23,7 @@ def pairing_program(params):
     MASK = {"MF": C.IN_MOVED_FROM, "MT": C.IN_MOVED_TO, "X": C.IN_MODIFY, "IG": C.IN_IGNORED}
     batches = params["batches"]
     gaps = params.get("gaps", [0] * len(batches))
+    UNIT = Buf.delay / 2.0   # the pairing delay is 2 model time units whatever its value in seconds
 
     def program(s):
         base = tempfile.mkdtemp(prefix="verif-pr-", dir=os.environ.get("TMPDIR", "/tmp"))
